@@ -312,7 +312,7 @@ func (p *untypedParamBinder) setFieldValue(target reflect.Value, defaultValue in
 		defVal = reflect.ValueOf(defaultValue)
 	}
 
-	if tpe == "byte" {
+	if tpe == "byte" && target.Kind() == reflect.Slice && target.Type().Elem().Kind() == reflect.Uint8 {
 		if data == "" {
 			if target.CanSet() {
 				target.SetBytes(defVal.Bytes())
